@@ -237,6 +237,15 @@ def _is_exponent_value(expr) -> bool:
             node = node.args[0]
         elif isinstance(node, ast.Attribute) and node.attr == "T":
             node = node.value
+        elif isinstance(node, ast.Call) and isinstance(node.func, ast.Attribute) and node.func.attr in (
+                "vstack", "concatenate", "stack", "array", "asarray", "unique") and node.args:
+            inner = node.args[0]
+            if isinstance(inner, (ast.ListComp, ast.GeneratorExp)):
+                node = inner.elt
+            elif isinstance(inner, (ast.List, ast.Tuple)) and inner.elts:
+                node = inner.elts[0]
+            else:
+                node = inner
         else:
             return False
     return False
@@ -311,6 +320,23 @@ def run_unsigned(ctx) -> RuleResult:
                                 f"unsanitised numpy.uint32 exponent; numpy 2 casts a Python scalar base to uint32 "
                                 f"(poly(-1) overflows) - wrap the exponent in int()",
                                 derivation=describe_path(path)))
+            # exponent rows collapsed into one number each (dot product with weights) while still uint32
+            for step in path:
+                for raw in step_exprs(step):
+                    for sub in ast.walk(raw):
+                        if isinstance(sub, ast.BinOp) and isinstance(sub.op, ast.MatMult) and (id(sub), id(step.vars)) not in seen:
+                            seen.add((id(sub), id(step.vars)))
+                            left, right = step.expand(sub.left), step.expand(sub.right)
+                            if _is_exponent_value(left) or _is_exponent_value(right):
+                                n += 1
+                                result.ob(f"{fq}: uint32 exponent rows are not folded into scalar ranks", False,
+                                          module.loc(step.orig), _txt(sub)[:80])
+                                result.add(Finding(
+                                    "R-UNSIGNED", module, qual, sub,
+                                    f"'{U(getattr(sub, '_orig', sub))[:60]}' folds unsanitised numpy.uint32 exponent rows into one "
+                                    f"number per row: the dot product stays uint32 and wraps silently at 2**32, so two different "
+                                    f"exponent tuples can receive the same rank and one monomial is dropped or merged",
+                                    derivation=describe_path(path), construct="uint32 exponent rows folded into ranks"))
             # a product of uint32 exponents with a run-time value handed on as an exponent matrix
             for step in path:
                 for raw in step_exprs(step):
